@@ -21,7 +21,10 @@ def seeded():
             if len(p)<5: continue
             sid,prop,tier,verdict,t=p[:5]
             sigs=' '.join(p[5:])
-            res.setdefault(sid,[]).append((prop,tier,verdict,t,sigs))
+            # a later line for the same (change, property) replaces the earlier one (re-runs after a check was strengthened)
+            lst=res.setdefault(sid,[])
+            lst[:]=[x for x in lst if x[0]!=prop]
+            lst.append((prop,tier,verdict,t,sigs))
     rows=[]
     for d in sorted(glob.glob(V+'/seeded/C*-*/')):
         sid=os.path.basename(d.rstrip('/'))
